@@ -87,7 +87,8 @@ IsSeq(s) == s.mode = "seq"
 
 \* ---------------------------------------------------------------- requests
 \* r = [cmd, id, key, q, pf, c]; cmd in OpCmds or "cancel", "mal" (malformed message that carried id; 0 if it
-\* carried none), "iw" (a write through an internal interface of the process, not an API message).
+\* carried none), "iw" / "iwok" (a write through an internal interface of the process, not an API message:
+\* announced / carried out).
 \* pf: payload of create/update: "J" JSON object with content c | "opq" anything else;
 \*     payload of insert: "J" JSON object c (0 = field not mentioned) | "opq" anything else;
 \*     iw: "J" | "opq" | "hid" (secret record) | "del".
@@ -131,10 +132,11 @@ Req(s, r) ==
             [s EXCEPT !.cred[r.id] = @ + 1,
                       !.op[r.id] = IF Live(@) THEN [@ EXCEPT !.canc = @ + 1] ELSE @]
       [] r.cmd = "mal" -> [s EXCEPT !.mal[r.id] = @ + 1]
-      [] r.cmd = "iw" ->
-            IF r.pf = "hid" THEN (IF IsSeq(s) THEN [s EXCEPT !.st[r.key] = Written(@, r)] ELSE s)
-            ELSE LET t == Attempt(s, r.key, r) IN
-                 IF IsSeq(s) THEN Owe([t EXCEPT !.st[r.key] = Written(@, r)], r.key) ELSE t
+      [] r.cmd = "iw" -> IF r.pf = "hid" THEN s ELSE Attempt(s, r.key, r)      \* announced before it is carried out
+      [] r.cmd = "iwok" ->                                                      \* ... and it went through
+            IF ~IsSeq(s) THEN s
+            ELSE LET t == [s EXCEPT !.st[r.key] = Written(@, r)] IN
+                 IF r.pf = "hid" THEN t ELSE Owe(t, r.key)
 
 \* ---------------------------------------------------------------- replies
 \* m = [id, typ, key, c, meta]; key 0 = the reply carries no (known) key; meta = the data has a _meta section
